@@ -52,6 +52,10 @@ enum SpCase {
     Bin { ty: String, gen: BitGen },
     DArr { sel0: bool, gen: BitGen },
     Bits { gen: BitGen },
+    /// construction history: `first` is built (and dropped) before `second` is built and measured
+    TreeAfter { alias: String, elem: String, first: Gen, second: Gen, vmap: String },
+    /// the generic container impls of SpaceUsage (Box<[T]>, Vec<T>, primitives)
+    Containers { k: u8 },
 }
 
 impl Case for SpCase {
@@ -76,6 +80,8 @@ impl Case for SpCase {
                 }
             }
             SpCase::Bits { gen } => run_bits(ctx, &prop, gen),
+            SpCase::TreeAfter { alias, elem, first, second, vmap } => with_tree!(alias.as_str(), elem.as_str(), run_tree_after(ctx, &prop, first, second, vmap)),
+            SpCase::Containers { k } => run_containers(ctx, *k),
         }
     }
     fn weight(&self) -> u64 {
@@ -83,6 +89,8 @@ impl Case for SpCase {
             SpCase::Tree { gen, .. } => gen.approx_len() * 200,
             SpCase::Quad { gen, .. } => gen.approx_len() * 8,
             SpCase::Bin { gen, .. } | SpCase::DArr { gen, .. } | SpCase::Bits { gen } => gen.approx_len() * 4,
+            SpCase::TreeAfter { first, second, .. } => (first.approx_len() + second.approx_len()) * 200,
+            SpCase::Containers { .. } => 5_000_000,
         }
     }
 }
@@ -241,6 +249,75 @@ fn run_tree<X: Tree>(ctx: &mut Ctx, prop: &str, gen: &Gen, vm: &str) {
             }
         }
         p => panic!("{p}"),
+    }
+}
+
+/// C15 after a construction history: the bound must hold for a tree no matter which tree was built before
+/// it on the same thread (a cache keyed too coarsely would hand the second tree the first one's code).
+fn run_tree_after<X: Tree>(ctx: &mut Ctx, prop: &str, first: &Gen, second: &Gen, vm: &str) {
+    if prop != "C15" || !X::HUFF {
+        return;
+    }
+    let v1: Vec<X::T> = tree_values(first, vm);
+    {
+        let (_t, _) = build_measured::<X>(&v1, 1);
+    }
+    ctx.count("construction_histories");
+    run_tree::<X>(ctx, prop, second, vm);
+}
+
+fn run_containers(ctx: &mut Ctx, k: u8) {
+    use qwt::QWT256;
+    ctx.set_ty("SpaceUsage containers");
+    ctx.note_input(&k, true);
+    let chunks = [1_000usize, 400_000, 250_000, 800_000, 30_000, 0, 7];
+    match k {
+        0 => {
+            let (v, heap) = measured(|| chunks.iter().map(|&n| (0..n).map(|i| i % 3 == 0).collect::<BitVector>()).collect::<Vec<_>>().into_boxed_slice());
+            check_reported(ctx, &v, heap, chunks.len() + 1, 0, "Box<[BitVector]> with chunks of very different sizes");
+        }
+        1 => {
+            let (v, heap) = measured(|| chunks.iter().rev().map(|&n| RSQVector256::new(&(0..n / 4).map(|i| (i % 4) as u8).collect::<Vec<u8>>())).collect::<Vec<_>>().into_boxed_slice());
+            check_reported(ctx, &v, heap, 4 * chunks.len() + 1, 0, "Box<[RSQVector256]> with chunks of very different sizes");
+        }
+        2 => {
+            let (v, heap) = measured(|| [10usize, 50_000, 3, 120_000].iter().map(|&n| QWT256::from((0..n).map(|i| (i % 200) as u8).collect::<Vec<u8>>())).collect::<Vec<_>>().into_boxed_slice());
+            check_reported(ctx, &v, heap, 40, 0, "Box<[QWT256<u8>]> with trees of very different sizes");
+        }
+        3 => {
+            for n in [0usize, 1, 1000, 100_000] {
+                let (v, heap) = measured(|| (0..n as u64).collect::<Vec<u64>>().into_boxed_slice());
+                check_reported(ctx, &v, heap, 1, 0, &format!("Box<[u64]> of {n}"));
+                let (v, heap) = measured(|| (0..n).map(|i| i as u8).collect::<Vec<u8>>().into_boxed_slice());
+                check_reported(ctx, &v, heap, 1, 0, &format!("Box<[u8]> of {n}"));
+                let (v, heap) = measured(|| (0..n).map(|i| i as u128).collect::<Vec<u128>>().into_boxed_slice());
+                check_reported(ctx, &v, heap, 1, 0, &format!("Box<[u128]> of {n}"));
+            }
+        }
+        4 => {
+            for (cap, len) in [(0usize, 0usize), (100_000, 0), (100_000, 1), (100_000, 60_000), (1000, 1000), (7, 3)] {
+                let (v, heap) = measured(|| {
+                    let mut v: Vec<u64> = Vec::with_capacity(cap);
+                    v.extend(0..len as u64);
+                    v
+                });
+                check_reported(ctx, &v, heap, 1, 0, &format!("Vec<u64> with capacity {cap} and {len} elements"));
+                let (v, heap) = measured(|| {
+                    let mut v: Vec<u16> = Vec::with_capacity(cap);
+                    v.extend((0..len).map(|i| i as u16));
+                    v
+                });
+                check_reported(ctx, &v, heap, 1, 0, &format!("Vec<u16> with capacity {cap} and {len} elements"));
+            }
+        }
+        _ => {
+            ctx.obs("u8::space_usage_byte", "", 0, 0, 0, Exp::Is(1), || 7u8.space_usage_byte());
+            ctx.obs("u64::space_usage_byte", "", 0, 0, 0, Exp::Is(8), || 7u64.space_usage_byte());
+            ctx.obs("u128::space_usage_byte", "", 0, 0, 0, Exp::Is(16), || 7u128.space_usage_byte());
+            ctx.obs("bool::space_usage_byte", "", 0, 0, 0, Exp::Is(1), || true.space_usage_byte());
+            ctx.obs("f64::space_usage_byte", "", 0, 0, 0, Exp::Is(8), || 1.5f64.space_usage_byte());
+            ctx.obs("usize::space_usage_KiB", "", 0, 0, 0, Exp::Is((8.0f64 / 1024.0).to_bits()), || 7usize.space_usage_KiB().to_bits());
+        }
     }
 }
 
@@ -443,6 +520,9 @@ fn enumerate(args: &Args) -> Vec<SpCase> {
                     }
                 }
             }
+            for k in 0..6u8 {
+                v.push(SpCase::Containers { k });
+            }
             // Huffman profiles for the table accounting
             for &al in HUFF_QUAD.iter().chain(["HWT"].iter()) {
                 for freqs in [vec![1000u32, 2000, 4000, 8000, 16000, 32000], chain4(8), vec![5000; 64]] {
@@ -469,6 +549,8 @@ fn enumerate(args: &Args) -> Vec<SpCase> {
         ];
         profiles.push(chain4(6));
         profiles.push(chain4(8));
+        profiles.push(chain4(9));
+        profiles.push(chain4(10));
         profiles.push(chain2(12));
         profiles.push((1..=200u32).collect());
         for p in &profiles {
@@ -486,6 +568,22 @@ fn enumerate(args: &Args) -> Vec<SpCase> {
                             }
                             v.push(SpCase::Tree { alias: al.into(), elem: elem.into(), gen: Gen::Huff { freqs: freqs.clone(), arr }, vmap: vm.into() });
                         }
+                    }
+                }
+            }
+        }
+        // construction histories: the same counts handed to the symbols in another order, built one after
+        // the other on the same thread (all ordered pairs of three assignments, incl. the same one twice)
+        for base in [vec![64u32, 128, 256, 512, 1024, 2048, 4096, 8192], vec![40, 40, 40, 40, 40, 40, 40, 20000], vec![1000, 2000, 7000], vec![16, 48, 144, 432, 1296, 3888, 11664]] {
+            let mut rev = base.clone();
+            rev.reverse();
+            let mut rot = base.clone();
+            rot.rotate_left(base.len() / 2);
+            let variants = [base.clone(), rev, rot];
+            for a in &variants {
+                for b in &variants {
+                    for &al in &aliases {
+                        v.push(SpCase::TreeAfter { alias: al.into(), elem: "u8".into(), first: Gen::Huff { freqs: a.clone(), arr: 2 }, second: Gen::Huff { freqs: b.clone(), arr: 2 }, vmap: "hid".into() });
                     }
                 }
             }
